@@ -1127,8 +1127,14 @@ func (fr *Frame) binop(x *ssa.BinOp, st *State, reach Term) {
 		}
 		r := vc.sc.Def("t", enc.shift(x.Op, ta, tb, signed, ysigned))
 		if x.Op == token.SHL && fr.wraps(x.Op, x.Type()) {
-			w, _, _ := intInfo(x.Type())
-			r = vc.sc.Def("t", app(SInt, "mod", r, intLit(new(bigInt).Lsh(bigOne, uint(w)))))
+			w, sg, _ := intInfo(x.Type())
+			m := intLit(new(bigInt).Lsh(bigOne, uint(w)))
+			if sg {
+				h := intLit(new(bigInt).Lsh(bigOne, uint(w-1)))
+				r = vc.sc.Def("t", app(SInt, "-", app(SInt, "mod", app(SInt, "+", r, h), m), h))
+			} else {
+				r = vc.sc.Def("t", app(SInt, "mod", r, m))
+			}
 		} else if x.Op == token.SHL {
 			fr.overflowCheck(r, x.Type(), reach, "<<")
 		}
@@ -1171,8 +1177,10 @@ func (fr *Frame) valEq(a, b Val, t types.Type, st *State) Term {
 				return tTrue
 			}
 			d := vc.sc.Decl("streq", SBool)
-			// different lengths are certainly different
+			// different lengths are certainly different; two empty strings are equal
 			vc.sc.Assume(mkImplies(d, mkEq(x.L[2], y.L[2])), "equal strings have equal length")
+			zero := vc.enc.idxLit(0)
+			vc.sc.Assume(mkImplies(mkAnd(mkEq(x.L[2], zero), mkEq(y.L[2], zero)), d), "empty strings are equal")
 			return d
 		}
 		if _, isSl := t.Underlying().(*types.Slice); isSl {
@@ -1639,11 +1647,8 @@ func (fr *Frame) wraps(op token.Token, t types.Type) bool {
 	if fr.vc.enc.Mode != ModeInt || fr.fc == nil || fr.fc.Wraps == nil {
 		return false
 	}
-	_, signed, ok := intInfo(t)
+	_, _, ok := intInfo(t)
 	if !ok {
-		return false
-	}
-	if signed && op == token.SHL {
 		return false
 	}
 	switch op {
